@@ -168,8 +168,9 @@ func (c *collector) Collect(ch chan<- prometheus.Metric) {
 
 	global.Debug("Prometheus exporter export", "Data", metrics)
 
-	// Initialize (once) targetInfo and disableTargetInfo.
-	func() {
+	// Initialize (once) targetInfo, disableTargetInfo and resourceKeyVals, and
+	// read them while holding the lock: Collect can be called concurrently.
+	targetInfo, disableTargetInfo, resourceKeyVals := func() (prometheus.Metric, bool, keyVals) {
 		c.mu.Lock()
 		defer c.mu.Unlock()
 
@@ -179,23 +180,24 @@ func (c *collector) Collect(ch chan<- prometheus.Metric) {
 				// If the target info metric is invalid, disable sending it.
 				c.disableTargetInfo = true
 				otel.Handle(err)
-				return
+			} else {
+				c.targetInfo = targetInfo
 			}
-
-			c.targetInfo = targetInfo
 		}
+
+		if c.resourceAttributesFilter != nil && len(c.resourceKeyVals.keys) == 0 {
+			c.createResourceAttributes(metrics.Resource)
+		}
+
+		return c.targetInfo, c.disableTargetInfo, c.resourceKeyVals
 	}()
 
-	if !c.disableTargetInfo {
-		ch <- c.targetInfo
-	}
-
-	if c.resourceAttributesFilter != nil && len(c.resourceKeyVals.keys) == 0 {
-		c.createResourceAttributes(metrics.Resource)
+	if !disableTargetInfo {
+		ch <- targetInfo
 	}
 
 	for _, scopeMetrics := range metrics.ScopeMetrics {
-		n := len(c.resourceKeyVals.keys) + 2 // resource attrs + scope name + scope version
+		n := len(resourceKeyVals.keys) + 2 // resource attrs + scope name + scope version
 		kv := keyVals{
 			keys: make([]string, 0, n),
 			vals: make([]string, 0, n),
@@ -218,8 +220,8 @@ func (c *collector) Collect(ch chan<- prometheus.Metric) {
 			kv.vals = append(kv.vals, scopeMetrics.Scope.Name, scopeMetrics.Scope.Version)
 		}
 
-		kv.keys = append(kv.keys, c.resourceKeyVals.keys...)
-		kv.vals = append(kv.vals, c.resourceKeyVals.vals...)
+		kv.keys = append(kv.keys, resourceKeyVals.keys...)
+		kv.vals = append(kv.vals, resourceKeyVals.vals...)
 
 		for _, m := range scopeMetrics.Metrics {
 			typ := c.metricType(m)
@@ -550,10 +552,8 @@ func (c *collector) metricType(m metricdata.Metrics) *dto.MetricType {
 	return nil
 }
 
+// createResourceAttributes must be called with c.mu held.
 func (c *collector) createResourceAttributes(res *resource.Resource) {
-	c.mu.Lock()
-	defer c.mu.Unlock()
-
 	resourceAttrs, _ := res.Set().Filter(c.resourceAttributesFilter)
 	resourceKeys, resourceValues := getAttrs(resourceAttrs)
 	c.resourceKeyVals = keyVals{keys: resourceKeys, vals: resourceValues}
